@@ -4,6 +4,7 @@ import (
 	"fmt"
 	"runtime"
 	"sync"
+	"sync/atomic"
 	"testing"
 	"time"
 
@@ -325,6 +326,10 @@ func TestC11(t *testing.T) { runProp(t, "C11", genC11) }
 type C12Case struct {
 	Ops      [][]string `json:"ops"`      // per goroutine: call | convert | redefcall
 	Defaults int        `json:"defaults"` // the first Defaults inputs are NewFunc defaults of the target
+	// Yield: every function body yields the processor (and, for values > 1,
+	// sleeps that many microseconds on every other execution) to vary the
+	// interleaving of the library's own steps between goroutines.
+	Yield int `json:"yield,omitempty"`
 }
 
 func evalC12(c *engine.Case) engine.Verdict {
@@ -339,6 +344,15 @@ func evalC12(c *engine.Case) engine.Verdict {
 	well := engine.SingleInput(sc) || (!engine.DepCyclic(sc, engine.RPlus) && engine.AllConvsSatisfiable(sc, engine.RMinus))
 	build := func() (*engine.World, *argmapper.Func, []argmapper.Arg) {
 		w := engine.NewWorld()
+		if x.Yield > 0 {
+			var n int64
+			w.BodyHook = func(fs *engine.FuncSpec) {
+				runtime.Gosched()
+				if x.Yield > 1 && atomic.AddInt64(&n, 1)%2 == 0 {
+					time.Sleep(time.Duration(x.Yield) * time.Microsecond)
+				}
+			}
+		}
 		nd := x.Defaults
 		if nd > len(sc.Inputs) {
 			nd = len(sc.Inputs)
@@ -500,6 +514,7 @@ func genC12(g engine.G) *engine.Case {
 	if g.Pct(50) {
 		x.Defaults = g.Int(1, 3)
 	}
+	x.Yield = engine.Pick(g, []int{0, 1, 1, 20, 100})
 	c := &engine.Case{Sc: sc}
 	c.SetX(&x)
 	return c
